@@ -16,7 +16,9 @@ import zstandard
 
 FORMATS = [".bz2", ".gz", ".zst", ".zip", ".tar.gz", ".tgz", ".tar.bz2", ".tar"]
 TAR_FAMILY = (".tar.gz", ".tgz", ".tar.bz2", ".tar")
-CHECKSUMMED = (".bz2", ".gz", ".zst", ".zip", ".tar.bz2")  # see archive_detects_corruption()
+# formats for which damage in the middle of the archive (size kept) is noticed by the way Rally decompresses them (probed):
+# not plain .tar (no checksum) and not .tar.gz/.tgz (tarfile.extractall never reads the gzip trailer, so the CRC is not verified)
+CHECKSUMMED = (".bz2", ".gz", ".zst", ".zip", ".tar.bz2")
 
 T_PUBLISHED = 1_600_000_000  # mtime of members inside tar/zip archives
 T_DOC = 1_700_000_000  # mtime of a pre-existing document file
@@ -50,6 +52,7 @@ def corpus(n_docs, style="mixed", eol="\n", trailing=True, meta=False, salt=0):
     return text.encode("utf-8")
 
 
+@functools.lru_cache(maxsize=32)
 def line_starts(content):
     """byte offset at which a reader stands after skipping n lines one by one (index n), for n = 0..number_of_lines"""
     pos = [0]
@@ -59,7 +62,7 @@ def line_starts(content):
         i = content.find(b"\n", i + 1)
     if pos[-1] != len(content):
         pos.append(len(content))  # last line without a newline
-    return pos
+    return tuple(pos)
 
 
 def count_lines(content):
@@ -69,6 +72,7 @@ def count_lines(content):
     return n
 
 
+@functools.lru_cache(maxsize=32)
 def reference_offset_table(content, every=50000):
     starts = line_starts(content)
     n = len(starts) - 1
